@@ -1,1 +1,73 @@
+(* C14 - property theorems only.  Each is closed by [exact] of a lemma from Proofs.v. *)
 From TM Require Import Base.Prelude C14.Model C14.Spec C14.Proofs.
+Open Scope Z_scope.
+
+(* For every input (integerised similarity matrix, column multiplicities, target lengths, offset,
+   score bins, array dimensions) - all sizes, all nq, nt >= 1, both strand modes - the executable
+   model of the integer stage of tomtom.py satisfies the independent complete-score reference:
+   score = max over relative offsets, (offset, overlap) attain it, p = 1 - prod_o cdf_o(best-1)
+   (exactly, as rationals), strands merged as 1-(1-min p)^2 with the higher-scoring strand.
+   Inputs outside the preconditions [wf] are accepted by the spec (the text is silent there). *)
+Theorem c14_reference : forall c, spec_ok c (model c) = true.
+Proof. exact model_spec_ok. Qed.
+Print Assumptions c14_reference.
+
+(* the same for EVERY initial content of the scratch arrays (numpy.empty / left-overs of earlier queries) *)
+Theorem c14_reference_any_scratch : forall c, WF c -> forall s, spec_ok c (model_ver fixed s c) = true.
+Proof. exact model_spec_ok_scratch. Qed.
+Print Assumptions c14_reference_any_scratch.
+
+(* reverse-complementing the targets changes only the reported strand (strands scoring differently) *)
+Theorem c14_strand_swap : forall a b, r_score a <> r_score b -> 0 < snd (r_p a) -> 0 < snd (r_p b) ->
+  let m1 := merged a b in let m2 := merged b a in
+  peq (r_p m1) (r_p m2) /\ r_score m1 = r_score m2 /\ r_off m1 = r_off m2 /\ r_ovl m1 = r_ovl m2 /\
+  r_strand m1 = 1 - r_strand m2.
+Proof. exact strand_swap. Qed.
+Print Assumptions c14_strand_swap.
+
+(* a motif against a set containing itself: best score at offset 0 with full overlap *)
+Theorem c14_self_match : forall c total, WF c ->
+  let nq := q_nq (c_q c) in
+  (forall i j, (i < nq)%nat -> xval c j i <= xval c (tcol c total 0 i) i) ->
+  (forall i, (i < nq)%nat -> off_z c <= xval c (tcol c total 0 i) i) ->
+  best_ref c total nq = score_at c total nq 0 /\ overlap_at c nq 0 = Z.of_nat nq.
+Proof. exact self_match. Qed.
+Print Assumptions c14_self_match.
+
+(* column similarity is monotone (non-increasing) in Euclidean distance *)
+Theorem c14_integerise_monotone : forall med scale d1 d2, (0 <= scale)%Q -> (d1 <= d2)%Q ->
+  integerise med scale d2 <= integerise med scale d1.
+Proof. exact integerise_monotone. Qed.
+Print Assumptions c14_integerise_monotone.
+
+(* the preconditions are satisfiable and the theorem is not vacuous: a 2-column query against
+   targets of lengths 1, 3, 2 (one shorter, one longer, one equal), with a zero similarity *)
+Definition ex_call : call :=
+  mkcall (mktd 6 [2; 1; 1; 3] [1; 3; 2]%nat [0; 1; 2; 3; 0; 2]%nat false) (mkdims 3 8)
+         (mkqd 2 3 [[6; 1]; [0; 4]; [3; 3]; [5; 6]]).
+Example ex_call_wf : wf ex_call = true /\ length (o_rows (model ex_call)) = 3%nat /\
+                     forallb (fun r => negb (Qeq_bool (o_p r) 1)) (o_rows (model ex_call)) = true.
+Proof. vm_compute. auto. Qed.
+
+(* ------------------------------------------------------------------ repaired defects: the pre-fix behaviour
+   violates the property (witnesses also in corpus/C14, replayed on the implementation every run) *)
+(* #17 (fixed by 2381d4d): span pmfs built from f[j, 1..n_bins] only - the mass of score bin 0 is lost.
+   x = [0,4,3]: one query column, three single-column targets *)
+Definition v0_null : ver := mkver false true false.
+Definition w17 : call :=
+  mkcall (mktd 5 [1; 1; 1] [1; 1; 1]%nat [0; 1; 2]%nat false) (mkdims 1 20) (mkqd 1 3 [[0]; [4]; [3]]).
+Lemma null_mass_v0_refuted : exists c, wf c = true /\ spec_ok c (model_ver v0_null scratch0 c) = false.
+Proof. exists w17. vm_compute. auto. Qed.
+
+(* #16 (fixed by a3f2523), seen from C14: a best score of 0 reads B[nt, 2^64-1]; with one target
+   column the sentinel row B[0] is hit and the p-value is -1 *)
+Definition v0_p0 : ver := mkver true false false.
+Lemma zero_score_v0_refuted : exists c, wf c = true /\ spec_ok c (model_ver v0_p0 scratch0 c) = false.
+Proof. exists w17. vm_compute. auto. Qed.
+
+(* #18 (fixed by 704dadb): gamma_int stored as int8 although x - offset ranges over n_score_bins values *)
+Definition v0_int8 : ver := mkver true true true.
+Definition w18 : call :=
+  mkcall (mktd 200 [1; 1; 1] [1; 1; 1]%nat [0; 1; 2]%nat false) (mkdims 1 410) (mkqd 1 181 [[35]; [200]; [100]]).
+Lemma gamma_int8_v0_refuted : exists c, wf c = true /\ spec_ok c (model_ver v0_int8 scratch0 c) = false.
+Proof. exists w18. vm_compute. auto. Qed.
